@@ -112,7 +112,14 @@ func StatePredicates(prefix string) {
 		for i := 0; i < NX; i++ {
 			t := &S.Txs[i]
 			cls[i][0] = !t.Exists
-			cls[i][1] = t.State == txCOMMITTED
+			// committed and not yet applied on any of its targets (the transaction state alone lags behind the proposals)
+			unapplied := true
+			for tg := 0; tg < NT; tg++ {
+				if t.Targets[tg] && S.Configs[tg].Applied >= uint8(i+1) {
+					unapplied = false
+				}
+			}
+			cls[i][1] = t.State == txCOMMITTED && unapplied
 			cls[i][2] = t.State == txAPPLIED
 			cls[i][3] = t.State == txFAILED
 		}
